@@ -1139,179 +1139,57 @@ Print Assumptions Blocks_total_partial_stored_values.
    NOTE for the build: coqdep does not see any `Require` placed after Blocks_total_remaining_sites_list (the string of
    the peek_char_n site contains the two characters of a comment opener); new files must be required before it. *)
 
-
-
-Theorem Blocks_total_remaining_sites_list7 :
-  BlocksTotal7.rem_sites7 =
-  [ "mod.rs:finalize_borrowed:assert!(ast.open)";
-    "mod.rs:add_line:assert!(ast.open)";
-    "mod.rs:add_text_to_container:self.finalize(self.current).unwrap()";
-    "mod.rs:add_line:str::from_utf8(&line[self.offset..]).unwrap()";
-    "mod.rs:handle_alert:String::from_utf8(tmp).unwrap()";
-    "mod.rs:handle_footnote:str::from_utf8(c).unwrap()";
-    "mod.rs:finalize_borrowed:String::from_utf8(tmp).unwrap()";
-    "mod.rs:resolve_reference_link_definitions:content[seeked..]";
-    "inlines.rs:link_label:str::from_utf8(raw_label).unwrap()";
-    "mod.rs:parse_reference_inline:String::from_utf8(clean_url).unwrap()";
-    "mod.rs:parse_reference_inline:String::from_utf8(clean_title).unwrap()";
-    "table.rs:try_inserting_table_header_paragraph:String::from_utf8(paragraph_content).unwrap()";
-    "mod.rs:finalize_borrowed:assert!(pos < content.len())";
-    "mod.rs:finalize_borrowed:content.as_bytes()[pos]";
-    "table.rs:try_opening_header:content.len() - 2";
-    "table.rs:try_opening_header:content.len() - 2 - header_row.paragraph_offset";
-    "strings.rs:remove_trailing_blank_lines:line.len() - 1";
-    "strings.rs:chop_trailing_hashtags:line.len() - 1" ] /\
-  BlocksTotal7.rem_sites7_all =
-  [ "mod.rs:finalize_borrowed:assert!(ast.open)";
-    "mod.rs:add_line:assert!(ast.open)";
-    "mod.rs:add_text_to_container:self.finalize(self.current).unwrap()";
-    "mod.rs:add_line:str::from_utf8(&line[self.offset..]).unwrap()";
-    "mod.rs:handle_alert:String::from_utf8(tmp).unwrap()";
-    "mod.rs:handle_footnote:str::from_utf8(c).unwrap()";
-    "mod.rs:finalize_borrowed:String::from_utf8(tmp).unwrap()";
-    "mod.rs:resolve_reference_link_definitions:content[seeked..]";
-    "inlines.rs:link_label:str::from_utf8(raw_label).unwrap()";
-    "mod.rs:parse_reference_inline:String::from_utf8(clean_url).unwrap()";
-    "mod.rs:parse_reference_inline:String::from_utf8(clean_title).unwrap()";
-    "table.rs:try_inserting_table_header_paragraph:String::from_utf8(paragraph_content).unwrap()";
-    "strings.rs:split_off_front_matter:slice_from";
-    "strings.rs:split_off_front_matter:slice_to";
-    "strings.rs:line_at:slice";
-    "mod.rs:finalize_borrowed:assert!(pos < content.len())";
-    "mod.rs:finalize_borrowed:content.as_bytes()[pos]";
-    "table.rs:try_opening_header:content.len() - 2";
-    "table.rs:try_opening_header:content.len() - 2 - header_row.paragraph_offset";
-    "strings.rs:remove_trailing_blank_lines:line.len() - 1";
-    "strings.rs:chop_trailing_hashtags:line.len() - 1" ].
-Proof. split; vm_compute; reflexivity. Qed.
-Print Assumptions Blocks_total_remaining_sites_list7.
-
-(* valid UTF-8 input: Ok, or a Panic at one of the sites of rem_sites7 *)
-Theorem Blocks_total_partial_ok_or_remaining7 : forall o x, utf8_valid x = true ->
-  (exists r, parse_blocks o x = Ok r) \/ (exists s, parse_blocks o x = Panic s /\ In s BlocksTotal7.rem_sites7).
-Proof. exact BlocksTotal7.parse_blocks_ok_or_rem7. Qed.
-Print Assumptions Blocks_total_partial_ok_or_remaining7.
-
-(* EVERY input (valid UTF-8 or not): Ok, or a Panic at one of the sites of rem_sites7_all *)
-Theorem Blocks_total_partial_ok_or_remaining7_every_input : forall o x,
-  (exists r, parse_blocks o x = Ok r) \/ (exists s, parse_blocks o x = Panic s /\ In s BlocksTotal7.rem_sites7_all).
-Proof. exact BlocksTotal7.parse_blocks_ok_or_rem7_all. Qed.
-Print Assumptions Blocks_total_partial_ok_or_remaining7_every_input.
-
-
-
-Theorem Blocks_total_remaining_sites_list7 :
-  BlocksTotal7.rem_sites7 =
-  [ "mod.rs:finalize_borrowed:assert!(ast.open)";
-    "mod.rs:add_line:assert!(ast.open)";
-    "mod.rs:add_text_to_container:self.finalize(self.current).unwrap()";
-    "mod.rs:add_line:str::from_utf8(&line[self.offset..]).unwrap()";
-    "mod.rs:finalize_borrowed:String::from_utf8(tmp).unwrap()";
-    "mod.rs:resolve_reference_link_definitions:content[seeked..]";
-    "inlines.rs:link_label:str::from_utf8(raw_label).unwrap()";
-    "mod.rs:parse_reference_inline:String::from_utf8(clean_url).unwrap()";
-    "mod.rs:parse_reference_inline:String::from_utf8(clean_title).unwrap()";
-    "table.rs:try_inserting_table_header_paragraph:String::from_utf8(paragraph_content).unwrap()";
-    "mod.rs:finalize_borrowed:assert!(pos < content.len())";
-    "mod.rs:finalize_borrowed:content.as_bytes()[pos]";
-    "table.rs:try_opening_header:content.len() - 2";
-    "table.rs:try_opening_header:content.len() - 2 - header_row.paragraph_offset";
-    "strings.rs:remove_trailing_blank_lines:line.len() - 1";
-    "strings.rs:chop_trailing_hashtags:line.len() - 1" ] /\
-  BlocksTotal7.rem_sites7_all =
-  [ "mod.rs:finalize_borrowed:assert!(ast.open)";
-    "mod.rs:add_line:assert!(ast.open)";
-    "mod.rs:add_text_to_container:self.finalize(self.current).unwrap()";
-    "mod.rs:add_line:str::from_utf8(&line[self.offset..]).unwrap()";
-    "mod.rs:handle_alert:String::from_utf8(tmp).unwrap()";
-    "mod.rs:handle_footnote:str::from_utf8(c).unwrap()";
-    "mod.rs:finalize_borrowed:String::from_utf8(tmp).unwrap()";
-    "mod.rs:resolve_reference_link_definitions:content[seeked..]";
-    "inlines.rs:link_label:str::from_utf8(raw_label).unwrap()";
-    "mod.rs:parse_reference_inline:String::from_utf8(clean_url).unwrap()";
-    "mod.rs:parse_reference_inline:String::from_utf8(clean_title).unwrap()";
-    "table.rs:try_inserting_table_header_paragraph:String::from_utf8(paragraph_content).unwrap()";
-    "strings.rs:split_off_front_matter:slice_from";
-    "strings.rs:split_off_front_matter:slice_to";
-    "strings.rs:line_at:slice";
-    "mod.rs:finalize_borrowed:assert!(pos < content.len())";
-    "mod.rs:finalize_borrowed:content.as_bytes()[pos]";
-    "table.rs:try_opening_header:content.len() - 2";
-    "table.rs:try_opening_header:content.len() - 2 - header_row.paragraph_offset";
-    "strings.rs:remove_trailing_blank_lines:line.len() - 1";
-    "strings.rs:chop_trailing_hashtags:line.len() - 1" ].
-Proof. split; vm_compute; reflexivity. Qed.
-Print Assumptions Blocks_total_remaining_sites_list7.
-
-(* valid UTF-8 input: Ok, or a Panic at one of the sites of rem_sites7 *)
-Theorem Blocks_total_partial_ok_or_remaining7 : forall o x, utf8_valid x = true ->
-  (exists r, parse_blocks o x = Ok r) \/ (exists s, parse_blocks o x = Panic s /\ In s BlocksTotal7.rem_sites7).
-Proof. exact BlocksTotal7.parse_blocks_ok_or_rem7. Qed.
-Print Assumptions Blocks_total_partial_ok_or_remaining7.
-
-(* EVERY input (valid UTF-8 or not): Ok, or a Panic at one of the sites of rem_sites7_all *)
-Theorem Blocks_total_partial_ok_or_remaining7_every_input : forall o x,
-  (exists r, parse_blocks o x = Ok r) \/ (exists s, parse_blocks o x = Panic s /\ In s BlocksTotal7.rem_sites7_all).
-Proof. exact BlocksTotal7.parse_blocks_ok_or_rem7_all. Qed.
-Print Assumptions Blocks_total_partial_ok_or_remaining7_every_input.
-
-
-
-Theorem Blocks_total_remaining_sites_list7 :
-  BlocksTotal7.rem_sites7 =
-  [ "mod.rs:finalize_borrowed:assert!(ast.open)";
-    "mod.rs:add_line:assert!(ast.open)";
-    "mod.rs:add_text_to_container:self.finalize(self.current).unwrap()";
-    "mod.rs:finalize_borrowed:String::from_utf8(tmp).unwrap()";
-    "mod.rs:resolve_reference_link_definitions:content[seeked..]";
-    "inlines.rs:link_label:str::from_utf8(raw_label).unwrap()";
-    "mod.rs:parse_reference_inline:String::from_utf8(clean_url).unwrap()";
-    "mod.rs:parse_reference_inline:String::from_utf8(clean_title).unwrap()";
-    "table.rs:try_inserting_table_header_paragraph:String::from_utf8(paragraph_content).unwrap()";
-    "mod.rs:finalize_borrowed:assert!(pos < content.len())";
-    "mod.rs:finalize_borrowed:content.as_bytes()[pos]";
-    "table.rs:try_opening_header:content.len() - 2";
-    "table.rs:try_opening_header:content.len() - 2 - header_row.paragraph_offset";
-    "strings.rs:remove_trailing_blank_lines:line.len() - 1";
-    "strings.rs:chop_trailing_hashtags:line.len() - 1" ] /\
-  BlocksTotal7.rem_sites7_all =
-  [ "mod.rs:finalize_borrowed:assert!(ast.open)";
-    "mod.rs:add_line:assert!(ast.open)";
-    "mod.rs:add_text_to_container:self.finalize(self.current).unwrap()";
-    "mod.rs:add_line:str::from_utf8(&line[self.offset..]).unwrap()";
-    "mod.rs:handle_alert:String::from_utf8(tmp).unwrap()";
-    "mod.rs:handle_footnote:str::from_utf8(c).unwrap()";
-    "mod.rs:finalize_borrowed:String::from_utf8(tmp).unwrap()";
-    "mod.rs:resolve_reference_link_definitions:content[seeked..]";
-    "inlines.rs:link_label:str::from_utf8(raw_label).unwrap()";
-    "mod.rs:parse_reference_inline:String::from_utf8(clean_url).unwrap()";
-    "mod.rs:parse_reference_inline:String::from_utf8(clean_title).unwrap()";
-    "table.rs:try_inserting_table_header_paragraph:String::from_utf8(paragraph_content).unwrap()";
-    "strings.rs:split_off_front_matter:slice_from";
-    "strings.rs:split_off_front_matter:slice_to";
-    "strings.rs:line_at:slice";
-    "mod.rs:finalize_borrowed:assert!(pos < content.len())";
-    "mod.rs:finalize_borrowed:content.as_bytes()[pos]";
-    "table.rs:try_opening_header:content.len() - 2";
-    "table.rs:try_opening_header:content.len() - 2 - header_row.paragraph_offset";
-    "strings.rs:remove_trailing_blank_lines:line.len() - 1";
-    "strings.rs:chop_trailing_hashtags:line.len() - 1" ].
-Proof. split; vm_compute; reflexivity. Qed.
-Print Assumptions Blocks_total_remaining_sites_list7.
-
-(* valid UTF-8 input: Ok, or a Panic at one of the sites of rem_sites7 *)
-Theorem Blocks_total_partial_ok_or_remaining7 : forall o x, utf8_valid x = true ->
-  (exists r, parse_blocks o x = Ok r) \/ (exists s, parse_blocks o x = Panic s /\ In s BlocksTotal7.rem_sites7).
-Proof. exact BlocksTotal7.parse_blocks_ok_or_rem7. Qed.
-Print Assumptions Blocks_total_partial_ok_or_remaining7.
-
-(* EVERY input (valid UTF-8 or not): Ok, or a Panic at one of the sites of rem_sites7_all *)
-Theorem Blocks_total_partial_ok_or_remaining7_every_input : forall o x,
-  (exists r, parse_blocks o x = Ok r) \/ (exists s, parse_blocks o x = Panic s /\ In s BlocksTotal7.rem_sites7_all).
-Proof. exact BlocksTotal7.parse_blocks_ok_or_rem7_all. Qed.
-Print Assumptions Blocks_total_partial_ok_or_remaining7_every_input.
-
-
+(* ---- totality, seventh round (Proofs/BlocksTotal7*.v; the files are required above, before
+   Blocks_total_remaining_sites_list: see the note there).  One `but <sites>` walk per family, each a copy of the `only`
+   walk of Proofs/BlocksTotal5Only.v (or of Proofs/BlocksTotal6ValWalk.v when the stored-value invariant QI is needed)
+   with the new allowed set; only the functions between the sites and parse_blocks carry an invariant, taken from
+   Ok-path lemmas.  Proofs/BlocksTotal7.v intersects them with the result of the sixth round.
+   For EVERY input byte string and EVERY option set:
+     BlocksTotal7Add       mod.rs:add_child:self.finalize(parent).unwrap().  finalize answers the parent the node had
+                           before it is closed (finalize_parent), so None means that `parent` has no parent, i.e. it is
+                           the root (no_parent_root: BlocksTotal2Tree.parent_some, no uniqueness needed), and the root is
+                           a Document (NI, first clause of the shape invariant TI of Proofs/ParserShapeTables.v).  The
+                           Document accepts every kind add_child is called with except Item
+                           (Blocks_total_document_accepts_add_child_kinds: the description-list kinds ARE accepted); the
+                           Item of handle_list goes under the List that matched or the List just created
+                           (add_child_gen_new: the node add_child has created is the node its identifier denotes; needs
+                           the pairwise distinct identifiers of the RESULT state only, from the Ok-path lemmas of TI).
+     BlocksTotal7Cont, BlocksTotal7ContWalk   SIX UTF-8 sites that depend on stored content only, WITHOUT the premise
+                           utf8_valid x: on the Ok path every Paragraph content and every fenced code content / literal is
+                           valid UTF-8 (parse_blocks_cont: add_line appends bytes that from_utf8 has CHECKED — when the
+                           check fails the parse panics at an allowed site — and spaces; the other writers take checked
+                           suffixes, trims, prefixes cut at a checked boundary).
+                             mod.rs:resolve_reference_link_definitions:content[seeked..], inlines.rs:link_label: a
+                               reference definition ends inside the content at its end or after an ASCII CR / LF; the label
+                               lies between ASCII brackets
+                             mod.rs:parse_reference_inline: from_utf8(clean_url), from_utf8(clean_title): slices cut at
+                               ASCII bytes (every match of the link_title scanner ends with an ASCII byte), then trim,
+                               entity decoding, unescape keep validity
+                             mod.rs:finalize_borrowed:String::from_utf8(tmp): info string = prefix of the content before an
+                               ASCII line end, then the same three
+                             table.rs:try_inserting_table_header_paragraph:String::from_utf8(paragraph_content): the
+                               paragraph offset `row` answers is 0 or follows an ASCII byte (the row end scanner matches
+                               ASCII only), unescape_pipes keeps validity
+   Under utf8_valid x = true (the lines handed to process_line and the text after a front matter block are then valid
+   UTF-8: Blocks_total_lines_partial, BlocksTotal7Loc.prologue_rest_valid):
+     BlocksTotal7Fm        the three char-boundary slices of strings.rs front matter (split_off_front_matter:slice_from,
+                           slice_to, line_at:slice): every offset is 0, the length, the position of an ASCII line end or
+                           the position after one (BP, boundary_valid); no premise on the delimiter
+     BlocksTotal7Loc       mod.rs:handle_alert:String::from_utf8(tmp): the title is the line after the ASCII `]` that
+                           alert_title_loop found; mod.rs:handle_footnote:str::from_utf8(c): a footnote match is
+                           `[^` label `]:` .. with an ASCII-delimited label that contains no `]` (scan_footnote_shape, by
+                           inversion of the one regex rule)
+     BlocksTotal7Cur*      mod.rs:add_line:str::from_utf8(&line[self.offset..]): the cursor invariant
+                           UB line st := the suffix of the line from the offset (and from offset + 1 when a tab is partially
+                           consumed) is valid UTF-8, through every function that moves the cursor: moves over ASCII bytes
+                           (spaces / tabs in front of first_nonspace: F0 of the fourth round), over scanner matches that end
+                           with an ASCII byte or are all ASCII (structural facts over the regex rules:
+                           BlocksTotal7CurScan.re_last_ascii / re_ascii, checked by vm_compute per scanner), to the LF or
+                           beyond the line; a BOM is one character; for an ATX heading add_line gets the CHOPPED line, a
+                           prefix of the line cut in front of an ASCII byte
+   RESULT: all twelve UTF-8 sites and the add_child unwrap are excluded; on valid UTF-8 input parse_blocks is Ok or a Panic
+   at one of the 9 sites of rem_sites7; for every input, Ok or one of the 15 sites of rem_sites7_all (= rem_sites7 + the
+   six sites that need valid input: add_line, handle_alert, handle_footnote, the three front matter slices). *)
 
 Theorem Blocks_total_remaining_sites_list7 :
   BlocksTotal7.rem_sites7 =
@@ -1355,4 +1233,33 @@ Theorem Blocks_total_partial_ok_or_remaining7_every_input : forall o x,
 Proof. exact BlocksTotal7.parse_blocks_ok_or_rem7_all. Qed.
 Print Assumptions Blocks_total_partial_ok_or_remaining7_every_input.
 
-
+(* ---- state after the seventh round.  PROVED for the whole parse_blocks, EVERY option set: no OutOfFuel; on valid UTF-8
+   input any Panic is at one of the sites of rem_sites7 (Blocks_total_remaining_sites_list7); no site was found
+   reachable (each agent of this round also searched by vm_compute: hundreds of thousands of small documents, no Panic).
+   REMAINING for Blocks_total_full_statement = exactly rem_sites7:
+     open spine (3)   finalize_borrowed:assert!(ast.open), add_line:assert!(ast.open),
+                      add_text_to_container:self.finalize(self.current).unwrap(): spine_ok2 with P1 / P2 (fourth round).
+     table header (2) try_opening_header:content.len() - 2 [- paragraph_offset].  PROVED pieces (Proofs/BlocksTotal7Hdr.v,
+                      BlocksTotal7HdrLocal.v, not pinned): row_po_room (content [] or ending with LF and row answers
+                      Some (po, cells) => po + 2 <= |content|), try_inserting_table_header_paragraph keeps the content of
+                      the container, ng7h_try_opening_header (the local step).  A per-node clause is FALSE: the preface
+                      paragraph try_inserting creates has trimmed content without LF, is open and never finalized
+                      (preface_paragraph_refuted); it is never a LAST child (a Table follows it).  Missing: the structural
+                      invariant `a Paragraph that is a last child has content [] or ending with LF` (child lists: a bad
+                      paragraph is immediately followed by a Table), `the paragraph handed to try_opening_block is a last
+                      child` (it is the last matched container, reached through last_child_is_open), and the cursor fact
+                      offset < |line| at add_line on a Paragraph.
+     code blocks (3)  finalize_borrowed:assert!(pos < content.len()), content.as_bytes()[pos],
+                      remove_trailing_blank_lines:line.len() - 1.  PROVED pieces (Proofs/BlocksTotal7Code*.v, not pinned):
+                      ngk_finalize (finalize is safe at the three sites when an open code block has lend_ok / non-empty
+                      content), the Ok-path invariant CX e (all nodes but the exception e satisfy it) through every
+                      function, add_line_establish (the first add_line removes the exception), open_new_blocks_x
+                      (exception = the code block just opened; the loop stops), ngk_finalize_up_to_ex, fm_nonempty (the
+                      front matter call is safe).  Missing: add_text_to_container with the exception active (needs
+                      new <> self.current and <> last matched container: freshness), the walk from the handlers up, and
+                      for the indented case the cursor invariant F1 at handle_code_block.
+     chop_trailing_hashtags:line.len() - 1 (1)   the ATX line contains its #: position_hash answered Some in
+                      handle_atx_heading; an ATX heading is a container only on the line that opened it (check_open_blocks
+                      never answers a Heading: root, a node that matched, or a parent).
+   The walks of this round are independent files: a new family is one more `but <sites>` walk plus one line in the table
+   of Proofs/BlocksTotal7.v. *)
